@@ -456,7 +456,11 @@ pub struct InsertEntity {
 }
 impl InsertEntity {
     fn write(&mut self, conn: &Connection) -> std::result::Result<(), rusqlite::Error> {
+        #[cfg(discret_verif)]
+        crate::verif::fault_point("stmt_entity")?;
         self.node_to_mutate.write(conn)?;
+        #[cfg(discret_verif)]
+        crate::verif::fault_point("stmt_after_node")?;
 
         for edge in &self.edge_deletions {
             edge.delete(conn)?
